@@ -69,6 +69,8 @@ structure FreshTx (fs : Fs) (h : Nat) (tx : Tx) : Prop where
   nm : NotMent tx.op fs.ops
   caOp : ∀ r', look tx.op fs.ops = some r' → r' = ⟨[h], tx.view⟩
   caView : ∀ t', look tx.view fs.views = some t' → t' = tx.tree
+  /-- `tree_state` is re-saved whenever the working-copy tree changes -/
+  treeOk : tx.saveTree = false → tx.tree = fs.wcTree
 
 /-- the part of a transaction before the publish: objects only -/
 def txPre (parent : Nat) (tx : Tx) : List Step :=
@@ -132,7 +134,7 @@ theorem run_txSteps (fs : Fs) (h : Nat) (tx : Tx) (hh : fs.heads = [h]) (hne : t
 
 theorem txPre_wellOrderedWc (fs : Fs) (h : Nat) (tx : Tx) (hh : fs.heads = [h]) (hw : fs.wcOp = h)
     (fr : FreshTx fs h tx) : wellOrderedWc fs (txPre h tx) = true := by
-  obtain ⟨hne, hnm, hcaO, hcaV⟩ := fr
+  obtain ⟨hne, hnm, hcaO, hcaV, _⟩ := fr
   have hnm' := (notMentioned_iff _ _).mpr hnm
   cases hlv : look tx.view fs.views with
   | none =>
@@ -157,14 +159,18 @@ theorem txPre_wellOrderedWc (fs : Fs) (h : Nat) (tx : Tx) (hh : fs.heads = [h]) 
 
 theorem txPost_wellOrderedWc (fs : Fs) (h : Nat) (tx : Tx) (hh : fs.heads = [h]) (hw : fs.wcOp = h)
     (fr : FreshTx fs h tx) : wellOrderedWc (afterPre fs h tx) (txPost h tx) = true := by
-  obtain ⟨hne, hnm, _, _⟩ := fr
+  obtain ⟨hne, hnm, _, _, htree⟩ := fr
   have hne' : h ≠ tx.op := fun e => hne e.symm
   have hnm2 : notMentioned tx.op ((tx.op, (⟨[h], tx.view⟩ : OpRec)) :: fs.ops) = true :=
     (notMentioned_iff _ _).mpr (NotMent.cons hnm (by simp [hne]))
   unfold txPost
   rw [wellOrderedWc_append, wellOrderedWc_append, wellOrderedWc_replicate_wf, run_replicate_wf]
-  cases hs : tx.saveTree <;>
-    simp [wellOrderedWc, okStep, okWc, Step.apply, run, afterPre, look_cons, hh, hw, hne, hne', hnm2]
+  cases hs : tx.saveTree
+  · have := htree hs
+    simp [wellOrderedWc, okStep, okWc, Step.apply, run, afterPre, look_cons, headTree, hh, hw, hne, hne',
+      hnm2, this]
+  · simp [wellOrderedWc, okStep, okWc, Step.apply, run, afterPre, look_cons, headTree, hh, hw, hne, hne',
+      hnm2]
 
 theorem txSteps_wellOrderedWc (fs : Fs) (h : Nat) (tx : Tx) (hh : fs.heads = [h]) (hw : fs.wcOp = h)
     (fr : FreshTx fs h tx) : wellOrderedWc fs (txSteps h tx) = true := by
@@ -190,11 +196,18 @@ theorem cmdSteps_wellOrderedWc (txs : List Tx) : ∀ (fs : Fs) (h : Nat), fs.hea
     exact ih (afterTx fs h tx) tx.op (by simp [afterTx]) (by simp [afterTx]) f2
 
 /-- `workspace update-stale` (no divergent snapshot): check out, then save both state files -/
-theorem updateStale_wellOrderedWc (fs : Fs) (h tree files : Nat) (hh : fs.heads = [h]) :
+theorem updateStale_wellOrderedWc (fs : Fs) (h tree files : Nat) (hh : fs.heads = [h])
+    (ht : headTree fs h = some tree) :
     wellOrderedWc fs (updateStaleSteps h tree files) = true := by
   unfold updateStaleSteps
   rw [wellOrderedWc_append, wellOrderedWc_replicate_wf, run_replicate_wf]
-  simp [wellOrderedWc, okStep, okWc, Step.apply, hh]
+  have ht' : headTree { fs with wcFiles := fs.wcFiles + files } h = some tree := ht
+  by_cases e : fs.wcOp = h
+  · simp [wellOrderedWc, okStep, okWc, Step.apply, hh, e, headTree] at ht ⊢
+    simp [ht]
+  · have e' : ¬ h = fs.wcOp := fun x => e x.symm
+    simp [wellOrderedWc, okStep, okWc, Step.apply, hh, e', headTree] at ht ⊢
+    simp [ht]
 
 theorem run_updateStale (fs : Fs) (h tree files : Nat) :
     run fs (updateStaleSteps h tree files)
